@@ -42,7 +42,12 @@ FRESH = {'string', 'slice', 'map', 'ptr', 'struct', 'perr', 'big'}   # types wit
 CBS_BAD = ['notfunc', 'nilfunc', 'args', 'rets0', 'rets2', 'panics']
 
 
+XVARS = ['xint', 'xstring']          # initialised variables of another package (harness/c08/goomx)
+
+
 def ty_of_var(v):
+    if v in XVARS:
+        return v[1:]
     return v[:-1] if v.endswith('2') else v
 
 
@@ -112,6 +117,8 @@ def gen_hist(rng, lane, stripped=False):
         if h.vars and rng.chance(1, 4):                   # the other variable of a type already present
             t = ty_of_var(h.vars[0])
             v = t + ('' if h.vars[0].endswith('2') else '2')
+        if rng.chance(1, 12):
+            v = rng.choice(XVARS)
         if v not in h.vars:
             h.vars.append(v)
     mode, bld = {}, {}
@@ -338,7 +345,10 @@ def build_probe(tag, ldflags):
     if tag not in _BIN:
         import json
         repl = {os.path.join(C.REPO, v): real for v, real in FILES.items()}
-        for vdir, fmap in C.helper_pkgs().items():
+        pk = dict(C.helper_pkgs())
+        pk['zzverifx'] = {'x.go': os.path.join(H, 'goomx', 'x.go')}
+        pk['internal/zzverif/c08a/github.com/tencent/goom/zzverifx'] = {'y.go': os.path.join(H, 'goomy', 'y.go')}
+        for vdir, fmap in pk.items():
             for vname, real in fmap.items():
                 repl[os.path.join(C.REPO, vdir, vname)] = real
         ov = os.path.join(C.BUILD, f'{tag}.overlay.json')
